@@ -71,6 +71,12 @@ static ByteString otherBytes(int o)
 
 bool ENVOBJ::attributeExists(CK_ATTRIBUTE_TYPE type)
 {
+#ifndef VP_ENV_ATTRMAP
+	// attribute-map valued attributes are not modelled: no environment object has a wrap / unwrap template (a
+	// constant answer, so that cbmc prunes the template-merging code of C_WrapKey / C_UnwrapKey instead of executing
+	// it symbolically)
+	if (type == CKA_WRAP_TEMPLATE || type == CKA_UNWRAP_TEMPLATE) return false;
+#endif
 	SELF;
 	int b = bidx(type);
 	if (b >= 0) return vp_in_objb[o * (int)VP_NB + b] % 3 != 0;
